@@ -562,7 +562,7 @@ fn tree_scenario(seed: u64, n: usize) -> Result<(Events, bool), String> {
 
 /// the bus is allowed to allocate, but its backlog must stop growing once the outputs are pulled in step
 fn bus_scenario(seed: u64, n: usize) -> Result<(Events, bool), String> {
-    let outs = 1 + (seed % 4) as usize;
+    let outs = 1 + (seed % 5) as usize;
     let total = (n * 25).max(4000);
     let bus = signal::noise(seed).bus();
     let mut outputs: Vec<_> = (0..outs).map(|_| bus.send()).collect();
@@ -584,6 +584,18 @@ fn bus_scenario(seed: u64, n: usize) -> Result<(Events, bool), String> {
             mixf(&mut acc, extra.next());
         }
         drop(extra);
+    }
+    // an output in the middle of the attach order is dropped and another one attached afterwards: the newcomer must get a
+    // read cursor of its own (then everything runs in step again)
+    if seed % 3 == 0 && outputs.len() >= 3 {
+        let gone = outputs.remove(1);
+        drop(gone);
+        outputs.push(bus.send());
+        for _ in 0..10 {
+            for o in outputs.iter_mut() {
+                mixf(&mut acc, o.next());
+            }
+        }
     }
     let backlog0 = bus.verif_backlog_len();
     let (max_backlog, ev) = measure(|| {
